@@ -83,7 +83,7 @@ def run_check(prop, tier, seed, replay=None, update_baseline=False):
 
     known = load_json(os.path.join(HERE, 'known_findings.json'), {'findings': []})['findings']
     baseline = load_json(os.path.join(HERE, 'baseline_obligations.json'), {})
-    base_prop = set(baseline.get(prop, []))
+    base_prop = set((baseline.get(prop) or {}).get('tasks', []))    # tasks fully discharged on the pinned tree
 
     all_results = []
     crashes, unsupported = [], []
@@ -158,9 +158,9 @@ def run_check(prop, tier, seed, replay=None, update_baseline=False):
             continue
         if fail is not None and match_known(known, prop, fail) is not None:
             continue
-        if r['verdict'] == 'refuted' or r['obligation'] in base_prop:
+        if r['verdict'] == 'refuted' or r['contract'] in base_prop:
             why = 'obligation refuted by the solver' if r['verdict'] == 'refuted' else \
-                'obligation was discharged on the pinned tree and no longer discharges (%s)' % (r.get('reason') or 'unknown')
+                'every obligation of this contract was discharged on the pinned tree; this one no longer discharges (%s)' % (r.get('reason') or 'unknown')
             if not any(v[0]['obligation'] == r['obligation'] for v in violations):
                 record_violation(r, why, fail)
         else:
@@ -221,10 +221,11 @@ def run_check(prop, tier, seed, replay=None, update_baseline=False):
         print('  undecided: %s (%s)' % (r['obligation'], r.get('reason')))
 
     if update_baseline and exit_code == 0:
-        baseline[prop] = sorted(r['obligation'] for r in proved)
+        names = sorted(set(r['contract'] for r in all_results))
+        baseline[prop] = {'tasks': names, 'obligations': len(proved)}
         with open(os.path.join(HERE, 'baseline_obligations.json'), 'w') as f:
             json.dump(baseline, f, indent=0, sort_keys=True)
-        print('baseline updated: %d obligations for %s' % (len(baseline[prop]), prop))
+        print('baseline updated: %d fully discharged tasks (%d obligations) for %s' % (len(names), len(proved), prop))
     return exit_code
 
 
